@@ -21,6 +21,7 @@ import CaddyModel.C14.Resume
 import CaddyModel.C14.Witness
 import CaddyModel.Gen.CAWrites
 import CaddyModel.Gen.Autosave
+import CaddyModel.Gen.Resume
 
 namespace CaddyModel.C14
 
@@ -731,5 +732,15 @@ theorem autosave_program_matches_source :
     Gen.autosaveWritesTempThenRenames = true ∧
     Gen.autosaveNeverWritesInPlace = true ∧
     Gen.autosaveAfterSwap = true := by decide
+
+/-- the reader of Resume.lean (`codeReadAt = .afterEnvFiles`, and `loadEnvFile` re-computing the
+    variable) is what the source says: the only `os.ReadFile` of `cmdRun` names the package
+    variable `caddy.ConfigAutosavePath` itself, `cmdRun` does not mention that variable above its
+    single `handleEnvFileFlag` call (no copy is taken early), and `loadEnvFromFile` assigns it from
+    `caddy.AppConfigDir()` after its last `os.Setenv`. -/
+theorem resume_read_matches_source :
+    Gen.cmdRunReadFileArgs = ["caddy.ConfigAutosavePath"] ∧ Gen.cmdRunEnvFileCalls = 1 ∧
+    Gen.cmdRunAutosavePathUsesBeforeEnvFile = 0 ∧ Gen.cmdRunReadsBeforeEnvFile = 0 ∧
+    Gen.loadEnvFromFileRecomputesAutosavePath = true := by decide
 
 end CaddyModel.C14
